@@ -118,7 +118,7 @@ func c09Run(p c09Params) func() {
 			}
 			c := 0
 			if p.stateMenu {
-				c = mc.Choose(7, mc.Fault)
+				c = mc.Choose(8, mc.Fault)
 			}
 			j := ((s.T - epochStart) % H) / R // index of this transmission within its heartbeat
 			switch c {
@@ -141,6 +141,8 @@ func c09Run(p c09Params) func() {
 			case 6:
 				ch := req.Channel
 				After(T-j*R+1*ms, "late-state", func() { deliver(&knxnet.ConnStateRes{Channel: ch, Status: 0}) })
+			case 7: // a response for a foreign channel that reports that channel as lost
+				deliver(&knxnet.ConnStateRes{Channel: req.Channel + 50, Status: knxnet.ErrConnectionID})
 			}
 		}
 		gw.OnTunnelReq = func(req *knxnet.TunnelReq, s *fakesock.Sent) {
@@ -213,7 +215,9 @@ func c09Run(p c09Params) func() {
 						break
 					}
 					mc.Sleep(at - mc.Now())
-					switch mc.Choose(5, mc.Fault) {
+					switch mc.Choose(6, mc.Fault) {
+					case 5: // unsolicited: another connection's state response, reporting that one as lost
+						deliver(&knxnet.ConnStateRes{Channel: cur + 50, Status: knxnet.ErrConnectionID})
 					case 1:
 						deliver(&knxnet.DiscReq{Channel: cur})
 					case 2:
